@@ -187,6 +187,34 @@ theorem C02_enum_read_signed_partial (h : Placed bb o w) (direct : Bool)
   simp only [View.decode, fieldView]
   rw [toSigned_eq_twos (fieldBits_lt bb o w)]
 
+/-- **Summary**: for every view type meeting its static side conditions, `Read()` is the
+documented decoding of the covered bits (`none` = not `Ok()`, only possible for `Bcd`). -/
+theorem C02_read_eq_spec (h : Placed bb o w) (direct : Bool)
+    (hd : direct = true → o = 0 ∧ w = bb.c) (ty : Ty) (hty : TypeFits ty w) :
+    (fieldView ty direct bb o w).read = decodeSpec ty w (fieldBits bb o w) := by
+  cases ty with
+  | uint => exact (C02_uint_read h direct hd).2
+  | int => exact (C02_int_read_twos_complement h direct hd).2
+  | bcd =>
+    obtain ⟨_, hok, hbad⟩ := C02_bcd_read h direct hd
+    simp only [decodeSpec]
+    by_cases hb : BcdOk (nibbles w) (fieldBits bb o w)
+    · rw [if_pos hb]; exact hok hb
+    · rw [if_neg hb]; exact hbad hb
+  | flag =>
+    simp only [TypeFits] at hty; subst hty
+    exact (C02_flag_read h direct hd).2
+  | float => exact (C02_float_bits h hty direct hd).2
+  | enum uw s =>
+    cases s with
+    | false => exact (C02_enum_read_unsigned h uw hty direct hd).2
+    | true =>
+      simp only [TypeFits] at hty; subst hty
+      exact (C02_enum_read_signed_partial h direct hd).2
+
+example : TypeFits (.enum 8 true) 8 ∧ decodeSpec (.enum 8 true) 8 0x8f = some (-113) :=
+  ⟨rfl, by decide⟩
+
 def exBB8 : BitBlock := { order := .little, path := .opt, c := 8, bytes := [0x8f] }
 example : (fieldView (.enum 8 true) true exBB8 0 8).read = some (-113) := by decide
 
